@@ -11,53 +11,53 @@ section
 variable {s : Streams} (h : SReach s)
 include h
 theorem SReach.cloneHandle  : SReach s.cloneHandle :=
-  h.step (.cloneHandle h.flow) (.cloneHandle s) (.cloneHandle) trivial rfl
+  h.step (.cloneHandle h.flow) (h.k.cloneHandle) (.cloneHandle s) (.cloneHandle) trivial rfl
 theorem SReach.dropHandle  : SReach s.dropHandle :=
-  h.step (.dropHandle h.flow) (.dropHandle s) (.dropHandle) trivial rfl
+  h.step (.dropHandle h.flow) (h.k.dropHandle) (.dropHandle s) (.dropHandle) trivial rfl
 theorem SReach.cloneStreamRef (k : Nat) : SReach (s.cloneStreamRef k) :=
-  h.step (.cloneStreamRef k h.flow) (.cloneStreamRef s k) (.cloneStreamRef k) trivial rfl
+  h.step (.cloneStreamRef k h.flow) (h.k.cloneStreamRef k) (.cloneStreamRef s k) (.cloneStreamRef k) trivial rfl
 theorem SReach.dropStreamRef (k : Nat) : SReach (s.dropStreamRef k) :=
-  h.step (.dropStreamRef k h.flow) (.dropStreamRef s k) (.dropStreamRef k) trivial rfl
+  h.step (.dropStreamRef k h.flow) (h.k.dropStreamRef k) (.dropStreamRef s k) (.dropStreamRef k) trivial rfl
 theorem SReach.sendRequest (b : Bool) (f : List Hpack.Field) (e : Bool) (p : Option Nat) : SReach (s.sendRequest b f e p).1 :=
-  h.step (.sendRequest b f e p h.flow) (.sendRequest s b f e p) (.sendRequest b f e p) trivial rfl
+  h.step (.sendRequest b f e p h.flow) (h.k.sendRequest b f e p) (.sendRequest s b f e p) (.sendRequest b f e p) trivial rfl
 theorem SReach.pollPendingOpen (p : Option Nat) (t : String) : SReach (s.pollPendingOpen p t).1 :=
-  h.step (.pollPendingOpen p t h.flow) (.pollPendingOpen s p t) (.pollPendingOpen p t) trivial rfl
+  h.step (.pollPendingOpen p t h.flow) (h.k.pollPendingOpen p t) (.pollPendingOpen s p t) (.pollPendingOpen p t) trivial rfl
 theorem SReach.nextIncoming  : SReach s.nextIncoming.1 :=
-  h.step (.nextIncoming h.flow) (.nextIncoming s) (.nextIncoming) trivial rfl
+  h.step (.nextIncoming h.flow) (h.k.nextIncoming) (.nextIncoming s) (.nextIncoming) trivial rfl
 theorem SReach.recvTakeRequest (k : Nat) : SReach (s.recvTakeRequest k).1 :=
-  h.step (.recvTakeRequest k h.flow) (.recvTakeRequest s k) (.recvTakeRequest k) trivial rfl
+  h.step (.recvTakeRequest k h.flow) (h.k.recvTakeRequest k) (.recvTakeRequest s k) (.recvTakeRequest k) trivial rfl
 theorem SReach.refSendResponse (k : Nat) (f : List Hpack.Field) (e : Bool) : SReach (s.refSendResponse k f e).1 :=
-  h.step (.refSendResponse k f e h.flow) (.refSendResponse s k f e) (.refSendResponse k f e) trivial rfl
+  h.step (.refSendResponse k f e h.flow) (h.k.refSendResponse k f e) (.refSendResponse s k f e) (.refSendResponse k f e) trivial rfl
 theorem SReach.refSendInformationalHeaders (k : Nat) (f : List Hpack.Field) : SReach (s.refSendInformationalHeaders k f).1 :=
-  h.step (.refSendInformationalHeaders k f h.flow) (.refSendInformationalHeaders s k f) (.refSendInformationalHeaders k f) trivial rfl
+  h.step (.refSendInformationalHeaders k f h.flow) (h.k.refSendInformationalHeaders k f) (.refSendInformationalHeaders s k f) (.refSendInformationalHeaders k f) trivial rfl
 theorem SReach.refSendPushPromise (k : Nat) (v : Bool) (f : List Hpack.Field) : SReach (s.refSendPushPromise k v f).1 :=
-  h.step (.refSendPushPromise k v f h.flow) (.refSendPushPromise s k v f) (.refSendPushPromise k v f) trivial rfl
+  h.step (.refSendPushPromise k v f h.flow) (h.k.refSendPushPromise k v f) (.refSendPushPromise s k v f) (.refSendPushPromise k v f) trivial rfl
 theorem SReach.refSendData (k len : Nat) (e : Bool) : SReach (s.refSendData k len e).1 :=
-  h.step (.refSendData k len e h.flow) (.refSendData s k len e) (.refSendData k len e) trivial rfl
+  h.step (.refSendData k len e h.flow) (h.k.refSendData k len e) (.refSendData s k len e) (.refSendData k len e) trivial rfl
 theorem SReach.refSendTrailers (k : Nat) (f : List Hpack.Field) : SReach (s.refSendTrailers k f).1 :=
-  h.step (.refSendTrailers k f h.flow) (.refSendTrailers s k f) (.refSendTrailers k f) trivial rfl
+  h.step (.refSendTrailers k f h.flow) (h.k.refSendTrailers k f) (.refSendTrailers s k f) (.refSendTrailers k f) trivial rfl
 theorem SReach.refSendReset (k : Nat) (r : Reason) : SReach (s.refSendReset k r) :=
-  h.step (.refSendReset k r h.flow) (.refSendReset s k r) (.refSendReset k r) trivial rfl
+  h.step (.refSendReset k r h.flow) (h.k.refSendReset k r) (.refSendReset s k r) (.refSendReset k r) trivial rfl
 theorem SReach.refReserveCapacity (k c : Nat) : SReach (s.refReserveCapacity k c) :=
-  h.step (.refReserveCapacity k c h.flow) (.refReserveCapacity s k c) (.refReserveCapacity k c) trivial rfl
+  h.step (.refReserveCapacity k c h.flow) (h.k.refReserveCapacity k c) (.refReserveCapacity s k c) (.refReserveCapacity k c) trivial rfl
 theorem SReach.pollCapacity (k : Nat) (t : String) : SReach (s.pollCapacity k t).1 :=
-  h.step (.pollCapacity k t h.flow) (.pollCapacity s k t) (.pollCapacity k t) trivial rfl
+  h.step (.pollCapacity k t h.flow) (h.k.pollCapacity k t) (.pollCapacity s k t) (.pollCapacity k t) trivial rfl
 theorem SReach.pollReset (k : Nat) (m : PollReset) (t : String) : SReach (s.pollReset k m t).1 :=
-  h.step (.pollReset k m t h.flow) (.pollReset s k m t) (.pollReset k m t) trivial rfl
+  h.step (.pollReset k m t h.flow) (h.k.pollReset k m t) (.pollReset s k m t) (.pollReset k m t) trivial rfl
 theorem SReach.recvPollResponse (n k : Nat) (t : String) : SReach (Streams.recvPollResponse n s k t).1 :=
-  h.step (.recvPollResponse n k t h.flow) (.recvPollResponse n s k t) (.recvPollResponse n k t) trivial rfl
+  h.step (.recvPollResponse n k t h.flow) (KInv.recvPollResponse n h.k k t) (.recvPollResponse n s k t) (.recvPollResponse n k t) trivial rfl
 theorem SReach.recvPollInformational (k : Nat) (t : String) : SReach (s.recvPollInformational k t).1 :=
-  h.step (.recvPollInformational k t h.flow) (.recvPollInformational s k t) (.recvPollInformational k t) trivial rfl
+  h.step (.recvPollInformational k t h.flow) (h.k.recvPollInformational k t) (.recvPollInformational s k t) (.recvPollInformational k t) trivial rfl
 theorem SReach.refPollData (k : Nat) (t : String) : SReach (s.refPollData k t).1 :=
-  h.step (.refPollData k t h.flow) (.refPollData s k t) (.refPollData k t) trivial rfl
+  h.step (.refPollData k t h.flow) (h.k.refPollData k t) (.refPollData s k t) (.refPollData k t) trivial rfl
 theorem SReach.recvPollTrailers (k : Nat) (t : String) : SReach (s.recvPollTrailers k t).1 :=
-  h.step (.recvPollTrailers k t h.flow) (.recvPollTrailers s k t) (.recvPollTrailers k t) trivial rfl
+  h.step (.recvPollTrailers k t h.flow) (h.k.recvPollTrailers k t) (.recvPollTrailers s k t) (.recvPollTrailers k t) trivial rfl
 theorem SReach.refReleaseCapacity (k c : Nat) : SReach (s.refReleaseCapacity k c).1 :=
-  h.step (.refReleaseCapacity k c h.flow) (.refReleaseCapacity s k c) (.refReleaseCapacity k c) trivial rfl
+  h.step (.refReleaseCapacity k c h.flow) (h.k.refReleaseCapacity k c) (.refReleaseCapacity s k c) (.refReleaseCapacity k c) trivial rfl
 theorem SReach.refClearRecvBuffer (k : Nat) : SReach (s.refClearRecvBuffer k) :=
-  h.step (.refClearRecvBuffer k h.flow) (.refClearRecvBuffer s k) (.refClearRecvBuffer k) trivial rfl
+  h.step (.refClearRecvBuffer k h.flow) (h.k.refClearRecvBuffer k) (.refClearRecvBuffer s k) (.refClearRecvBuffer k) trivial rfl
 theorem SReach.clearWakes : SReach { s with wakes := [] } :=
-  h.step (.clearWakes h.flow) (.clearWakes s) (.clearWakes) trivial rfl
+  h.step (.clearWakes h.flow) (h.k.withWakes []) (.clearWakes s) (.clearWakes) trivial rfl
 end
 
 /-- the calls the user-side handles make on the stream layer (any arguments) -/
@@ -238,5 +238,15 @@ theorem DReach.cinv {c : Conn} (h : DReach c) : CInv c := by
 theorem dreach_poll_pending_parked {c c' : Conn} (n : Nat) (h : DReach c) (hp : c'.streams.panicked = none) :
     (Conn.protoPoll n c = (c', .pending) → PollParked c') ∧ (Conn.clientPoll n c = (c', .pending) → PollParked c') :=
   ⟨fun hq => protoPoll_pending_parked n c c' h.cinv hq hp, fun hq => clientPoll_pending_parked n c c' h.cinv hq hp⟩
+
+/-- **the `pending_capacity` clause, in every history**: a stream waits in `pending_capacity` only while the
+    connection-level send window has nothing left to hand out (`SReach.k`: `KInv` is part of the stream-layer
+    invariant, kept by every call — ConnDrainPCapA…E) -/
+theorem dreach_capacity {c : Conn} (h : DReach c) :
+    c.streams.prio.pendingCapacity = [] ∨ c.streams.prio.flow.available.val = 0 := by
+  have hk := h.cinv.sr.k
+  rcases hk.cap with e | e
+  · exact Or.inl e
+  · exact Or.inr (by have := hk.safe.a0; omega)
 
 end H2V.Lemmas.ConnDrainP
